@@ -7,6 +7,7 @@ import (
 	_ "verif/harness/props/c10"
 	_ "verif/harness/props/c13"
 	_ "verif/harness/props/c14"
+	_ "verif/harness/props/c17"
 	_ "verif/harness/props/c18"
 )
 
